@@ -454,7 +454,9 @@ def step (st : St) (l : Line) : St × List Msg :=
     let gcEvents := (List.range evs.length).zip evs |>.filter fun (_, ev) =>
       ["index.gc.marked", "index.gc.merged", "index.gc.truncated", "index.gc.unlinked", "index.gc.free.truncated", "index.gc.free.unlinked",
        "primary.gc.fl.marked", "primary.gc.merged", "primary.gc.truncated", "primary.gc.unlinked"].any fun p => ev.endsWith ("@" ++ p)
-    let gcOverlap := started.any fun o => !isGC o.op && gcEvents.any fun (n, _) => o.inv ≤ n && n ≤ o.ret.getD 1000000
+    -- (D18 is about a CALLER holding an index position or a primary location between its lookup and its read: Put, Get, Has,
+    -- GetSize, Remove. A Flush holds neither; what protects the records it has written but not yet published is flushLock.)
+    let gcOverlap := started.any fun o => (concOfOp o.op).isSome && gcEvents.any fun (n, _) => o.inv ≤ n && n ≤ o.ret.getD 1000000
     -- The map is a product of independent registers, one per key, and linearizability is local (Herlihy-Wing): the history is
     -- linearizable iff its restriction to every key is. Verdicts and recognisers are therefore evaluated PER KEY: overlapping
     -- mutators of key k (D17) can excuse a failure on k and on the keys that share k's BUCKET: the late Index.Update / Index.Remove
@@ -570,6 +572,7 @@ def step (st : St) (l : Line) : St × List Msg :=
     let _ := poolsFinal
     let flags := concMsgs ++ rateMsgs ++ poolsMsgs ++ [Msg.flag "schedule"] ++
       (if evs.any (·.startsWith "window:open") then [Msg.flag "collector-window"] else []) ++
+      (if evs.any (·.startsWith "window:open:f@") then [Msg.flag "flush-window"] else []) ++
       (if evs.any (fun e => (e.splitOn ":blocked:").length > 1) then [Msg.flag "thread-blocked"] else []) ++
       (if evs.any (fun e => e.endsWith "@primary.gc.reloc.put") then [Msg.flag "relocation"] else []) ++
       (if started.any (fun a => started.any fun b => a.thread ≠ b.thread && overlap a b) then [Msg.flag "overlapping-calls"] else []) ++
